@@ -438,3 +438,219 @@ Section Build.
       + rewrite Q1. f_equal. apply agree_eq. exact Q2.
   Qed.
 End Build.
+
+Section Accessors.
+  Variable D : Type.
+  Variable H : D -> D -> D.
+  Variable dflt : D.
+  Notation znth := (znth D dflt).
+  Notation spec_tree := (spec_tree D H dflt).
+
+  Lemma build_rejects_lemma fixed cutoff fuel (ds : list D) :
+    is_pow2 (zlen ds) = false -> from_digests D H dflt fixed cutoff fuel ds = Err.
+  Proof.
+    intros Hp. unfold from_digests. destruct (zlen ds =? 0); [reflexivity|]. rewrite Hp. reflexivity.
+  Qed.
+
+  (* cutoff 0 on the pinned tree: `while count >= 0` never exits *)
+  Lemma par_loop_zero_diverges fuel : forall nodes acc,
+    par_loop D H false 0 fuel nodes 0 acc = OutOfFuel.
+  Proof.
+    induction fuel; intros nodes acc; [reflexivity|].
+    cbn [par_loop]. unfold par_guard. cbn [Z.leb Z.compare andb].
+    unfold par_level. cbn [Z.to_nat zrange mapO obind].
+    unfold write_slice. change (zlen (@nil D)) with 0. cbn [Z.leb Z.compare andb Z.add].
+    pose proof (zlen_nonneg nodes) as Hl.
+    destruct (0 <=? zlen nodes) eqn:E; [|apply Z.leb_gt in E; lia].
+    cbn [Z.to_nat length firstn Nat.add skipn app obind]. change (0 / 2) with 0. apply IHfuel.
+  Qed.
+
+  Lemma build_cutoff_zero_diverges (d : D) fuel :
+    from_digests D H dflt false 0 fuel [d] = OutOfFuel.
+  Proof.
+    unfold from_digests. change (zlen [d]) with 1. cbn [Z.eqb is_pow2 negb].
+    change (is_pow2 1) with true. cbn [negb].
+    change (write_slice D (repeat dflt (Z.to_nat (2 * 1))) 1 [d]) with (@Ok (list D) [dflt; d]).
+    cbn [obind]. change (1 / 2) with 0. rewrite par_loop_zero_diverges. reflexivity.
+  Qed.
+
+  (* ---------------------------------------------------------------- accessors of an honest tree *)
+  Section Honest.
+    Variable leafs : list D.
+    Hypothesis Hp : is_pow2 (zlen leafs) = true.
+    Let n := zlen leafs.
+    Let t := spec_tree leafs.
+
+    Lemma honest_len : zlen t = 2 * n.
+    Proof. destruct (spec_tree_ok D H dflt leafs Hp) as [A _]. exact A. Qed.
+    Lemma honest_n_pos : 1 <= n.
+    Proof.
+      apply is_pow2_spec in Hp. destruct Hp as [h [Hh Hn]]. fold n in Hn.
+      pose proof (Z.pow_pos_nonneg 2 h). lia.
+    Qed.
+    Lemma honest_pow2_2n : is_pow2 (2 * n) = true.
+    Proof.
+      apply is_pow2_spec in Hp. destruct Hp as [h [Hh Hn]]. apply is_pow2_spec.
+      exists (h + 1). split; [lia|]. rewrite Z.pow_add_r by lia. fold n in Hn. lia.
+    Qed.
+
+    Lemma honest_num_leafs m : mt_num_leafs D m t = Ok n.
+    Proof.
+      unfold mt_num_leafs. rewrite honest_len, honest_pow2_2n.
+      replace (2 * n / 2) with n by (rewrite Z.mul_comm, Z.div_mul; lia). destruct m; reflexivity.
+    Qed.
+
+    Lemma honest_height m : mt_height D m t = Ok (Z.log2 n).
+    Proof.
+      unfold mt_height. rewrite honest_num_leafs. cbn [obind]. fold n in Hp. rewrite Hp.
+      pose proof honest_n_pos. destruct (n =? 0) eqn:E; [apply Z.eqb_eq in E; lia|]. destruct m; reflexivity.
+    Qed.
+
+    Lemma honest_root : mt_root D t = Ok (znth t 1).
+    Proof.
+      unfold mt_root. pose proof honest_n_pos. rewrite (zget_znth D dflt) by (rewrite honest_len; lia). reflexivity.
+    Qed.
+
+    Lemma honest_node i :
+      mt_node D t i = if (0 <=? i) && (i <? 2 * n) then Some (znth t i) else None.
+    Proof.
+      unfold mt_node.
+      destruct ((0 <=? i) && (i <? 2 * n)) eqn:E.
+      - apply andb_true_iff in E. destruct E as [E1 E2]. apply Z.leb_le in E1. apply Z.ltb_lt in E2.
+        apply (zget_znth D dflt). rewrite honest_len. lia.
+      - apply zget_none. rewrite honest_len. apply andb_false_iff in E.
+        destruct E as [E|E]; [apply Z.leb_gt in E|apply Z.ltb_ge in E]; lia.
+    Qed.
+
+    Lemma honest_leaf_node j : 0 <= j < n -> znth t (n + j) = znth leafs j.
+    Proof. destruct (spec_tree_ok D H dflt leafs Hp) as [_ [_ [C _]]]. apply C. Qed.
+
+    Lemma honest_leafs : mt_leafs D t = leafs.
+    Proof.
+      unfold mt_leafs. rewrite honest_len.
+      replace (2 * n / 2) with n by (rewrite Z.mul_comm, Z.div_mul; lia).
+      pose proof honest_len as Hl. unfold zlen in Hl. fold n in Hl.
+      apply (nth_ext _ _ dflt dflt).
+      - rewrite skipn_length. unfold n, zlen in *. lia.
+      - intros j Hj. rewrite skipn_length in Hj.
+        pose proof (znth_skipn D dflt t (Z.to_nat n) (Z.of_nat j)) as Hs.
+        unfold MerkleSpec.znth in Hs at 1. rewrite Nat2Z.id in Hs. rewrite Hs by lia.
+        rewrite Z2Nat.id by (unfold n, zlen; lia).
+        rewrite honest_leaf_node by (unfold n, zlen in *; lia).
+        unfold MerkleSpec.znth. rewrite Nat2Z.id. reflexivity.
+    Qed.
+
+    Hypothesis Hn63 : n <= 2 ^ 63.
+
+    Lemma honest_leaf_fixed m i : 0 <= i ->
+      mt_leaf D true m t i = Ok (if i <? n then Some (znth leafs i) else None).
+    Proof.
+      intros Hi. unfold mt_leaf. rewrite honest_len.
+      replace (2 * n / 2) with n by (rewrite Z.mul_comm, Z.div_mul; lia).
+      pose proof honest_n_pos. change (2 ^ 63) with 9223372036854775808 in Hn63.
+      destruct (i <? n) eqn:E.
+      - apply Z.ltb_lt in E.
+        destruct (n + i <? USZ) eqn:E2; [|apply Z.ltb_ge in E2; unfold USZ in E2; lia].
+        rewrite (zget_znth D dflt) by (rewrite honest_len; lia). rewrite honest_leaf_node by lia. reflexivity.
+      - apply Z.ltb_ge in E. destruct (n + i <? USZ); [|reflexivity].
+        rewrite zget_none by (rewrite honest_len; lia). reflexivity.
+    Qed.
+
+    (* the pinned-tree leaf accessor is exact only while first_leaf + i does not wrap *)
+    Lemma honest_leaf_v0_nowrap m i : 0 <= i -> n + i < USZ ->
+      mt_leaf D false m t i = Ok (if i <? n then Some (znth leafs i) else None).
+    Proof.
+      intros Hi Hw. unfold mt_leaf, uadd. rewrite honest_len.
+      replace (2 * n / 2) with n by (rewrite Z.mul_comm, Z.div_mul; lia).
+      destruct (n + i <? USZ) eqn:E2; [|apply Z.ltb_ge in E2; lia]. cbn [obind].
+      destruct (i <? n) eqn:E.
+      - apply Z.ltb_lt in E.
+        rewrite (zget_znth D dflt) by (rewrite honest_len; lia). rewrite honest_leaf_node by lia. reflexivity.
+      - apply Z.ltb_ge in E. rewrite zget_none by (rewrite honest_len; lia). reflexivity.
+    Qed.
+
+    Lemma honest_indexed_leafs_fixed m idxs : (forall i, In i idxs -> 0 <= i) ->
+      mt_indexed_leafs D true m t idxs =
+      if forallb (fun i => i <? n) idxs then Ok (map (fun i => (i, znth leafs i)) idxs) else Err.
+    Proof.
+      intros Hr. unfold mt_indexed_leafs. rewrite honest_num_leafs. cbn [obind].
+      induction idxs as [|i r IH]; [reflexivity|].
+      cbn [mapO forallb map]. rewrite honest_leaf_fixed by (apply Hr; left; reflexivity). cbn [obind].
+      destruct (i <? n); cbn [andb obind]; [|reflexivity].
+      rewrite IH by (intros; apply Hr; right; assumption).
+      destruct (forallb (fun i0 => i0 <? n) r); reflexivity.
+    Qed.
+  End Honest.
+
+  Lemma build_terminates_lemma fixed cutoff (leafs : list D) :
+    (fixed = true \/ 1 <= cutoff) ->
+    from_digests D H dflt fixed cutoff (build_fuel D leafs) leafs <> OutOfFuel.
+  Proof.
+    intros Hfc. destruct (is_pow2 (zlen leafs)) eqn:Hp.
+    - rewrite build_spec_lemma; [discriminate|exact Hfc|exact Hp|].
+      unfold build_fuel, zlen. rewrite Nat2Z.inj_succ.
+      pose proof (Z.pow_gt_lin_r 2 (Z.succ (Z.of_nat (length leafs)))). lia.
+    - rewrite build_rejects_lemma by exact Hp. discriminate.
+  Qed.
+End Accessors.
+
+(* ---------------------------------------------------------------------------------------------- *)
+(* refutation witnesses on the pinned tree (free hash)                                            *)
+Definition wit_leafs : list term := map Atom [0; 1; 2; 3; 4; 5; 6; 7].
+Definition wit_tree : list term := spec_tree term Node Dflt wit_leafs.
+
+Lemma leaf_wrap_release_witness :
+  mt_leaf term false Release wit_tree (2 ^ 64 - 7) = Ok (Some (znth term Dflt wit_tree 1)).
+Proof. vm_compute. reflexivity. Qed.
+
+Lemma leaf_wrap_checked_witness : mt_leaf term false Checked wit_tree (2 ^ 64 - 7) = Panic.
+Proof. vm_compute. reflexivity. Qed.
+
+Lemma indexed_leafs_wrap_release_witness :
+  mt_indexed_leafs term false Release wit_tree [2 ^ 64 - 7] = Ok [(2 ^ 64 - 7, znth term Dflt wit_tree 1)].
+Proof. vm_compute. reflexivity. Qed.
+
+Lemma accessors_total_v0_refuted :
+  exists (D : Type) (H : D -> D -> D) (dflt : D) (leafs : list D) (m : mmode) (i : Z),
+    is_pow2 (zlen leafs) = true /\ zlen leafs <= 2 ^ 63 /\ 0 <= i < 2 ^ 64 /\
+    mt_leaf D false m (spec_tree D H dflt leafs) i <>
+      Ok (if i <? zlen leafs then Some (znth D dflt leafs i) else None).
+Proof.
+  exists term, Node, Dflt, wit_leafs, Release, (2 ^ 64 - 7).
+  split; [reflexivity|]. split; [vm_compute; discriminate|]. split; [lia|].
+  fold wit_tree. rewrite leaf_wrap_release_witness. vm_compute. discriminate.
+Qed.
+
+Lemma accessors_mode_dependent_v0 :
+  exists (D : Type) (H : D -> D -> D) (dflt : D) (leafs : list D) (i : Z),
+    is_pow2 (zlen leafs) = true /\ 0 <= i < 2 ^ 64 /\
+    mt_leaf D false Release (spec_tree D H dflt leafs) i <> mt_leaf D false Checked (spec_tree D H dflt leafs) i.
+Proof.
+  exists term, Node, Dflt, wit_leafs, (2 ^ 64 - 7).
+  split; [reflexivity|]. split; [lia|].
+  fold wit_tree. rewrite leaf_wrap_release_witness, leaf_wrap_checked_witness. discriminate.
+Qed.
+
+Lemma build_terminates_v0_refuted :
+  exists (D : Type) (H : D -> D -> D) (dflt : D) (cutoff : Z) (leafs : list D),
+    0 <= cutoff /\ is_pow2 (zlen leafs) = true /\
+    forall fuel, from_digests D H dflt false cutoff fuel leafs = OutOfFuel.
+Proof.
+  exists term, Node, Dflt, 0, [Atom 0]. split; [lia|]. split; [reflexivity|].
+  intros fuel. apply build_cutoff_zero_diverges.
+Qed.
+
+Lemma honest_accessors (D : Type) (H : D -> D -> D) (dflt : D) (leafs : list D) (m : mmode) :
+  is_pow2 (zlen leafs) = true ->
+  let t := spec_tree D H dflt leafs in
+  mt_num_leafs D m t = Ok (zlen leafs) /\ mt_height D m t = Ok (Z.log2 (zlen leafs)) /\
+  mt_root D t = Ok (znth D dflt t 1) /\ mt_leafs D t = leafs /\
+  forall i, mt_node D t i = if (0 <=? i) && (i <? 2 * zlen leafs) then Some (znth D dflt t i) else None.
+Proof.
+  intros Hp t. repeat split.
+  - now apply honest_num_leafs.
+  - now apply honest_height.
+  - now apply honest_root.
+  - now apply honest_leafs.
+  - intros i. now apply honest_node.
+Qed.
